@@ -960,3 +960,182 @@ pub fn points() -> [u64; 8] {
     }
     o
 }
+
+// ---------------------------------------------------------------------- ping-pong (C01, hardware reordering)
+
+/// A tight two-party loop with *uninstrumented* children: a persistent waker thread publishes a
+/// round number and invokes the child's waker; the consumer is an honest executor. After every
+/// round, once the waker thread is done and the task has not been notified again, the child must
+/// have seen the round number. No read-modify-write and no SeqCst access happens between the
+/// crate clearing a slot's queued flag and the child reading its state, so a store-to-load
+/// reordering the crate's own orderings permit (x86 has exactly this one) shows as a lost wake-up.
+pub struct PingStats {
+    pub rounds: u64,
+    pub polls: u64,
+    pub lost: Vec<String>,
+    pub double_wakes: u64,
+}
+
+struct PingKid {
+    state: AtomicU64,
+    seen: AtomicU64,
+    waker: Mutex<Option<Waker>>,
+    published: AtomicBool,
+    stop: AtomicBool,
+}
+struct PingChild {
+    id: usize,
+    sh: Arc<PingShared>,
+}
+struct PingShared {
+    kids: Vec<PingKid>,
+    woken: AtomicBool,
+    go: AtomicU64,
+    done: Vec<AtomicU64>,
+}
+struct PingTask(Arc<PingShared>);
+impl Wake for PingTask {
+    fn wake(self: Arc<Self>) {
+        self.0.woken.store(true, Release);
+    }
+    fn wake_by_ref(self: &Arc<Self>) {
+        self.0.woken.store(true, Release);
+    }
+}
+impl Future for PingChild {
+    type Output = usize;
+    fn poll(self: Pin<&mut Self>, cx: &mut Context<'_>) -> Poll<usize> {
+        let k = &self.sh.kids[self.id];
+        if !k.published.load(Relaxed) {
+            *k.waker.lock().unwrap() = Some(cx.waker().clone());
+            k.published.store(true, Release);
+        }
+        // the only thing a poll does: look at the state (plain acquire load) and remember it
+        let s = k.state.load(Acquire);
+        k.seen.store(s, Relaxed);
+        if k.stop.load(Relaxed) {
+            return Poll::Ready(self.id);
+        }
+        Poll::Pending
+    }
+}
+
+pub fn pingpong(seed: u64, rounds: u64, budget_ms: u64) -> PingStats {
+    let mut rng = Rng::new(seed);
+    let n = rng.range(1, 3);
+    let threads = rng.range(1, 2);
+    let sh = Arc::new(PingShared {
+        kids: (0..n).map(|_| PingKid { state: AtomicU64::new(0), seen: AtomicU64::new(0), waker: Mutex::new(None), published: AtomicBool::new(false), stop: AtomicBool::new(false) }).collect(),
+        woken: AtomicBool::new(false),
+        go: AtomicU64::new(0),
+        done: (0..threads).map(|_| AtomicU64::new(0)).collect(),
+    });
+    let unbounded = rng.chance(1, 3);
+    let mut fub = FuturesUnorderedBounded::new(n);
+    let mut fu = FuturesUnordered::with_capacity(1);
+    for i in 0..n {
+        if unbounded {
+            fu.push(PingChild { id: i, sh: sh.clone() });
+        } else {
+            fub.push(PingChild { id: i, sh: sh.clone() });
+        }
+    }
+    let task = Waker::from(Arc::new(PingTask(sh.clone())));
+    let mut st = PingStats { rounds: 0, polls: 0, lost: Vec::new(), double_wakes: 0 };
+    let mut cx = Context::from_waker(&task);
+    let mut poll_once = |st: &mut PingStats| {
+        st.polls += 1;
+        if unbounded {
+            let _ = Pin::new(&mut fu).poll_next(&mut cx);
+        } else {
+            let _ = Pin::new(&mut fub).poll_next(&mut cx);
+        }
+    };
+    poll_once(&mut st);
+    let mut handles = Vec::new();
+    for t in 0..threads {
+        let sh = sh.clone();
+        let tseed = seed ^ (t as u64 + 7);
+        handles.push(std::thread::spawn(move || {
+            let mut r = Rng::new(tseed);
+            let mut round = 0u64;
+            // wakers are taken once; from then on this thread touches no lock
+            let wakers: Vec<Waker> = sh.kids.iter().map(|k| k.waker.lock().unwrap().clone().expect("published by the first poll")).collect();
+            loop {
+                let g = sh.go.load(Acquire);
+                if g == u64::MAX {
+                    break;
+                }
+                if g == round {
+                    std::hint::spin_loop();
+                    continue;
+                }
+                round = g;
+                // each thread owns the children with index == t mod threads
+                for (c, k) in sh.kids.iter().enumerate() {
+                    if c % sh.done.len() != t {
+                        continue;
+                    }
+                    k.state.store(round, Release);
+                    wakers[c].wake_by_ref();
+                    if r.chance(1, 2) {
+                        // a second publish-and-wake in the same round (coalescing path)
+                        k.state.store(round, Release);
+                        wakers[c].wake_by_ref();
+                    }
+                }
+                sh.done[t].store(round, Release);
+            }
+            drop(wakers);
+        }));
+    }
+    let t0 = std::time::Instant::now();
+    for round in 1..=rounds {
+        if round % 4096 == 0 && t0.elapsed().as_millis() as u64 > budget_ms {
+            break;
+        }
+        st.rounds = round;
+        sh.go.store(round, Release);
+        let mut spins = 0u64;
+        loop {
+            if sh.woken.swap(false, AcqRel) {
+                poll_once(&mut st);
+                continue;
+            }
+            if sh.done.iter().all(|d| d.load(Acquire) == round) {
+                // every wake call of this round has returned; look once more at the flag
+                if sh.woken.swap(false, AcqRel) {
+                    poll_once(&mut st);
+                    continue;
+                }
+                break;
+            }
+            spins += 1;
+            if spins % 64 == 0 {
+                std::thread::yield_now();
+            } else {
+                std::hint::spin_loop();
+            }
+        }
+        // quiescent: the task sleeps, nobody will wake it in this round any more
+        for (c, k) in sh.kids.iter().enumerate() {
+            let seen = k.seen.load(Relaxed);
+            if seen != round && st.lost.len() < 4 {
+                st.lost.push(format!("round {round}: child {c} was completed (state {round}) and woken on another thread; the task sleeps un-notified and the child last saw state {seen}"));
+            }
+        }
+        if !st.lost.is_empty() {
+            break;
+        }
+    }
+    sh.go.store(u64::MAX, Release);
+    for k in sh.kids.iter() {
+        k.stop.store(true, Relaxed);
+    }
+    for h in handles {
+        let _ = h.join();
+    }
+    drop(fub);
+    drop(fu);
+    st
+}
